@@ -28,6 +28,7 @@ type C12Case struct {
 	Query    spsim.AttrQuery `json:"query"`
 	Style    spsim.XMLStyle  `json:"style"`
 	SignMode string          `json:"sign_mode"` // none | valid | rogue | rogue-registered-cert | edited | empty-value
+	HoistNS  bool            `json:"namespaces_on_envelope,omitempty"` // the query's prefixes are declared on the SOAP envelope
 	DestKind string          `json:"dest_kind"`
 	Soap     string          `json:"soap_prefix"`
 	Noise    bool            `json:"noise,omitempty"`
@@ -81,7 +82,7 @@ func genC12Case(t *rapid.T) C12Case {
 		u0.LoginName, u1.LoginName = "J.Doe@Corp.example", "j.doe@corp.example"
 	}
 	spec := world.Spec{IdP: idp, SPs: []world.SPSpec{sp0, spB}, Users: []world.UserSpec{u0, u1}}
-	c := C12Case{Spec: spec, Host: rapid.SampledFrom(reqHosts).Draw(t, "host"), Style: genXMLStyle(t), Soap: rapid.SampledFrom([]string{"soap", "S"}).Draw(t, "soap")}
+	c := C12Case{Spec: spec, Host: rapid.SampledFrom(reqHosts).Draw(t, "host"), Style: genXMLStyle(t), Soap: rapid.SampledFrom([]string{"soap", "S"}).Draw(t, "soap"), HoistNS: rapid.IntRange(0, 2).Draw(t, "hoistns") == 0}
 	e0, e1 := spec.SPs[0].EntityID, spec.SPs[1].EntityID
 	issuer := rapid.SampledFrom([]string{e0, e0, e0, e0, e1, e1, e0, e1, "https://unregistered.example/metadata", A, swapCase(e0), e0 + "/"}).Draw(t, "issuer")
 	subject := rapid.SampledFrom([]string{u0.LoginName, u0.LoginName, u1.LoginName, u0.LoginName, u1.LoginName, u1.LoginName, "nobody@users.example", A, " " + u0.LoginName}).Draw(t, "subject")
@@ -310,6 +311,9 @@ func c12Render(c C12Case, now time.Time) obs.HTTPReq {
 		} else {
 			env.Add(spsim.Envelope(second, c.Soap).Child(world.NSSOAP, "Body"))
 		}
+	}
+	if c.HoistNS {
+		spsim.HoistNS(env)
 	}
 	hr, _, _ := spsim.Encode(c.Spec.IdP.Route("attribute"), xt.Write(env, c.Style.W), spsim.Transport{Binding: "soap"}, nil)
 	hr.Host = c.Host
